@@ -26,6 +26,11 @@ fn run_machine(tape: &Tape, profile: Profile, trace: bool) -> (Option<Machine>, 
     run_machine_mode(tape, profile, trace, false)
 }
 
+/// closing steps of C05 and C07: the shared final drain (nothing may stay pinned or leaked)
+fn finale_drain(m: &mut Machine) -> Result<(), Stop> {
+    crate::c06c10::final_drain(m).map(|_| ())
+}
+
 fn run_machine_fin(tape: &Tape, profile: Profile, trace: bool, strict: bool, finale: Option<fn(&mut Machine) -> Result<(), Stop>>) -> (Option<Machine>, Result<(), Failure>) {
     let (m, r) = run_machine_mode(tape, profile, trace, strict);
     let (Some(mut m), Ok(())) = (m, r.clone()) else {
@@ -143,6 +148,12 @@ fn common_classes(m: &Machine, out: &mut CaseOut) {
     let s = &m.stats;
     if s.reopens > 0 {
         out.class("history with a reopen");
+    }
+    if m.bulk_ops > 0 {
+        out.class("history with a bulk write (>400 pages in one transaction)");
+    }
+    if m.bulk_ops > 1 {
+        out.class("history with >=2 bulk writes (a transaction freeing >400 pages)");
     }
     if s.nd_commits > 0 {
         out.class("history with a non-durable commit");
@@ -291,7 +302,7 @@ pub fn c05() -> HistCheck {
         quick: (30_000, 120),
         thorough: (600_000, 160),
         classify: c_c05,
-        finale: None,
+        finale: Some(finale_drain),
         probes: &[],
     }
 }
@@ -335,7 +346,7 @@ pub fn c07() -> HistCheck {
         quick: (30_000, 140),
         thorough: (600_000, 200),
         classify: c_c07,
-        finale: None,
+        finale: Some(finale_drain),
         probes: &[],
     }
 }
